@@ -114,8 +114,102 @@ func genShape(r *hx.Rng, depth int) Shape {
 	case 2:
 		return Shape{T: "subtract", Sub: []Shape{genShape(r, depth-1), genShape(r, depth-1)}}
 	default:
-		return Shape{T: "translate", A: genPos(r), Sub: []Shape{genShape(r, depth-1)}}
+		return Shape{T: "translate", A: genOffset(r), Sub: []Shape{genShape(r, depth-1)}}
 	}
+}
+
+// genOffset: translation offsets — ordinary ones, and the small-but-not-zero ones an absolute tolerance would swallow
+// (all components below 1e-8 / 1e-6 but not all zero; one tiny component among ordinary ones; some exactly zero).
+func genOffset(r *hx.Rng) V3 {
+	tiny := func() float64 {
+		return hx.Pick(r, []float64{0, 1e-12, 1e-10, 1e-9, 3e-9, 9e-9, 5e-8, 1e-7, 9e-7}) * rsign(r) * (0.5 + r.Float()/2)
+	}
+	switch r.Intn(6) {
+	case 0, 1:
+		for {
+			v := V3{tiny(), tiny(), tiny()}
+			if v != (V3{}) {
+				return v
+			}
+		}
+	case 2:
+		v := genPos(r)
+		v[r.Intn(3)] = tiny()
+		return v
+	case 3:
+		v := genPos(r)
+		v[r.Intn(3)] = 0
+		if r.Bool() {
+			v[r.Intn(3)] = 0
+		}
+		return v
+	}
+	return genPos(r)
+}
+
+// genChain: a long operator chain over primitives: n steps, each wrapping the running field with
+// Translate (ordinary or tiny offset) / Union / Intersect / Subtract with a fresh primitive (on either side).
+func genChain(r *hx.Rng, n int, onlyTranslate bool) Shape {
+	s := genPrimitive(r, hx.Pick(r, primitives))
+	for i := 0; i < n; i++ {
+		k := r.Intn(6)
+		if onlyTranslate {
+			k = 0
+		}
+		switch k {
+		case 0, 1:
+			s = Shape{T: "translate", A: genOffset(r), Sub: []Shape{s}}
+		case 2:
+			s = Shape{T: "union", Sub: []Shape{s, genPrimitive(r, hx.Pick(r, primitives))}}
+		case 3:
+			s = Shape{T: "intersect", Sub: []Shape{genPrimitive(r, hx.Pick(r, primitives)), s}}
+		case 4:
+			s = Shape{T: "subtract", Sub: []Shape{s, genPrimitive(r, hx.Pick(r, primitives))}}
+		default:
+			s = Shape{T: "subtract", Sub: []Shape{genPrimitive(r, hx.Pick(r, primitives)), s}}
+		}
+	}
+	return s
+}
+
+// genWide: Union / Intersect of many operands (6..14): beyond any small-arity special case or chunk size
+func genWide(r *hx.Rng) Shape {
+	n := r.Range(6, 14)
+	sub := make([]Shape, n)
+	for i := range sub {
+		sub[i] = genPrimitive(r, hx.Pick(r, primitives))
+	}
+	return Shape{T: hx.Pick(r, []string{"union", "intersect"}), Sub: sub}
+}
+
+// genVLine: sdf.VarryingThicknessLine of 2..7 points: smooth polylines, sharp turns, equal and very different radii,
+// now and then a segment whose end spheres are nested or a repeated point.
+func genVLine(r *hx.Rng) Shape {
+	n := hx.Pick(r, []int{2, 2, 3, 3, 4, 5, 7})
+	pts := make([]LP, n)
+	p := genPos(r)
+	rad := genSize(r) / 3
+	for i := range pts {
+		pts[i] = LP{p, rad}
+		step := 0.3 + genSize(r)
+		switch r.Intn(8) {
+		case 0:
+			step = rad * 0.3 // next sphere (probably) nested in this one or vice versa
+		case 1:
+			if i > 0 {
+				step = 0 // repeated point
+			}
+		}
+		p = p.add(genUnit(r).mul(step))
+		switch r.Intn(4) {
+		case 0: // same radius
+		case 1:
+			rad = genSize(r) / 3
+		default:
+			rad = math.Max(0.02, rad*(0.5+r.Float()))
+		}
+	}
+	return Shape{T: "vline", Pts: pts}
 }
 
 // frame: an orthonormal pair orthogonal to e
@@ -137,17 +231,24 @@ func firstPrimitive(s Shape) (Shape, V3) {
 		}
 		s = s.Sub[0]
 	}
+	if s.T == "vline" && len(s.Pts) > 0 { // around one of its points
+		s.A = s.Pts[len(s.Pts)/2].P
+	}
 	return s, off
 }
 
 func pickOffset(r *hx.Rng) float64 {
-	return hx.Pick(r, []float64{0, 1e-12, 1e-9, 1e-6, 1e-3, 0.03, 0.3}) * float64(1-2*r.Intn(2))
+	return hx.Pick(r, []float64{0, 1e-12, 1e-9, 3e-8, 1e-7, 1e-6, 1e-5, 1e-3, 0.03, 0.3}) * float64(1-2*r.Intn(2))
 }
 
 // genPointNear: points in and around the shape; a good share close to the surface, on axes, beyond caps and on
 // the branch boundaries of the rounded cone.
 func genPointNear(r *hx.Rng, s Shape) V3 {
 	prim, off := firstPrimitive(s)
+	if prim.T == "vline" && len(prim.Pts) >= 2 { // around one of its segments (a rounded cone)
+		i := 1 + r.Intn(len(prim.Pts)-1)
+		prim = Shape{T: "rcone", A: prim.Pts[i-1].P, B: prim.Pts[i].P, R: []float64{prim.Pts[i-1].R, prim.Pts[i].R}}
+	}
 	c := prim.A.add(off)
 	switch r.Intn(6) {
 	case 0: // anywhere around
@@ -239,8 +340,11 @@ func genPointNear(r *hx.Rng, s Shape) V3 {
 
 func genNeighbour(r *hx.Rng, s Shape, p V3) V3 {
 	step := math.Pow(10, -4*r.Float()) // 1e-4 .. 1
-	if r.Chance(1, 6) {
+	switch r.Intn(6) {
+	case 0:
 		step = 2 + r.Float()*3
+	case 1:
+		step = math.Pow(10, -4-5*r.Float()) // 1e-9 .. 1e-4: a jump between two branches shows as a huge ratio
 	}
 	return p.add(genUnit(r).mul(step))
 }
@@ -308,6 +412,21 @@ func cornerEvals() []evalDesc {
 	for _, rr := range [][]float64{{0.5, 0.2}, {0.2, 0.5}, {0.3, 0.3}} {
 		add(Shape{T: "rcone", A: V3{0.1, 0.2, 0.3}, B: V3{1.1, 0.7, -0.3}, R: rr}, V3{0.1, 0.2, 0.3}, V3{1.1, 0.7, -0.3}, V3{0.6, 0.45, 0},
 			V3{-0.9, -0.3, 0.9}, V3{2.1, 1.2, -0.9}, V3{0.6, 1.45, 0.5})
+	}
+	return out
+}
+
+// fixed VarryingThicknessLine cases: points inside / outside each of three segments, near the joints, beyond both ends
+func fixedVLines() []evalDesc {
+	var out []evalDesc
+	vl := Shape{T: "vline", Pts: []LP{{V3{0, 0, 0}, 0.5}, {V3{2, 0, 0}, 0.25}, {V3{2, 2, 0}, 0.25}, {V3{2, 2, 3}, 0.75}}}
+	for _, p := range []V3{{-1, 0, 0}, {0, 0, 0}, {1, 0.3, 0}, {1, 0.5, 0}, {2, 0, 0}, {2.2, -0.2, 0}, {2, 1, 0.2}, {2.5, 1, 0}, {2, 2, 0},
+		{2, 2, 1.5}, {2.4, 2, 1.5}, {2, 2, 3}, {2, 2, 4}, {0, 2, 0}, {1, 1, 1}, {2, 2.3, 2.9}, {2, 3, 3}} {
+		out = append(out, evalDesc{vl, p, false})
+	}
+	two := Shape{T: "vline", Pts: []LP{{V3{0.5, -1, 0.25}, 0.3}, {V3{-0.5, 1, 0.75}, 0.6}}}
+	for _, p := range []V3{{0.5, -1, 0.25}, {-0.5, 1, 0.75}, {0, 0, 0.5}, {1, -1.5, 0}, {-1, 2, 1}, {0.6, 0.2, 0.5}} {
+		out = append(out, evalDesc{two, p, false})
 	}
 	return out
 }
